@@ -21,6 +21,7 @@ def run_history(ctx, drv_pending, base, batches, ops, X_by_id, label, feats, nco
     m = copy.deepcopy(base)
     cur = [batches[0]]  # ids of the batches making up the current training data
     observed = []
+    seen = {}           # (input identity, training data identity) -> hash of the first output
     case = {"model": label, "ops": [str(o) for o in ops]}
     for o in ops:
         kind = o[0]
@@ -46,6 +47,14 @@ def run_history(ctx, drv_pending, base, batches, ops, X_by_id, label, feats, nco
                                                      f"(after {case['ops'][:len(observed)]})", case)
                 if not same:
                     ctx.violation("transform-repeat", "two transform calls with the same input differ on a seeded model", case)
+                # ... and "whenever it is called again": the same input must give the same output later in the
+                # history too, as long as the training data has not changed in between
+                hkey = (tuple(ids), tuple(cur))
+                hval = sha(out.toarray() if graph_mode else np.nan_to_num(out, nan=-1.25))
+                if hkey in seen and seen[hkey] != hval:
+                    ctx.violation("transform-repeat-later", f"transform of the same input differs from an earlier call in the same "
+                                                            f"history (ops so far: {case['ops'][:len(observed) + 1]})", case)
+                seen.setdefault(hkey, hval)
                 if is_train and not is_emb:
                     ctx.violation("transform-training", "transform(current training data) is not the current training embedding", case)
                 if (not is_train) and is_emb and not graph_mode:
@@ -109,6 +118,11 @@ def run(ctx):
               and any(o[0] == "U" and any(p[0] == "T" for p in s[i + 1:]) for i, o in enumerate(s))]
     pick = rng.choice(len(longer), size=min(len(longer), 120 if ctx.thorough else 24), replace=False)
     seqs += [longer[int(i)] for i in sorted(pick)]
+    # histories in which the same input recurs with read-only calls in between (always run)
+    recur = [[("T", 1), ("I",), ("T", 1)], [("T", 1), ("T", 2), ("T", 1)],
+             [("T", 1), ("I",), ("T", 2), ("I",), ("T", 1)], [("U", 3), ("T", 1), ("I",), ("T", 1)],
+             [("T", "train"), ("I",), ("T", 1), ("T", "train"), ("T", 1)]]
+    seqs += [r for r in recur if r not in seqs]
     for ops in seqs:
         run_history(ctx, pending, base, [0], ops, X_by_id, "exact n=60 n_epochs=30", feats, ncomp)
     # other configurations, shorter histories
@@ -130,8 +144,9 @@ def run(ctx):
     ba = umap.UMAP(n_neighbors=8, random_state=42, n_epochs=30, force_approximation_algorithm=True).fit(Xa)
     aseqs = [[o] for o in alphabet] + [[("U", 3), ("T", "train")], [("U", 3), ("T", 0)], [("U", 3), ("T", 1)], [("U", 3), ("I",)],
                                        [("T", 1), ("U", 3)], [("U", 3), ("T", "train"), ("T", 2)]]
+    aseqs += [[("T", 1), ("I",), ("T", 1)], [("U", 3), ("T", 1), ("I",), ("T", 1)]]
     if ctx.thorough:
-        aseqs = [list(s) for L in (1, 2) for s in itertools.product(alphabet, repeat=L)]
+        aseqs = [list(s) for L in (1, 2) for s in itertools.product(alphabet, repeat=L)] + aseqs[-2:]
         aseqs += [list(s) for s in itertools.product(alphabet, repeat=3) if any(o[0] == "U" for o in s)]
     for ops in aseqs:
         if sum(1 for o in ops if o[0] == "U") > 1:
